@@ -119,6 +119,8 @@ class Pool:
                                                                             fs(" ", fg="green", bg="yellow")]), fs("  ", fg="red", invert=True)]),
             # a row exactly as wide as the terminal that ends in plain blanks (nothing tells the terminal to erase behind it)
             ("full-width rows ending in plain blanks", lambda: [fs(("ab" + " " * w)[:w]) for _ in range(h)]),
+            # the same content whatever the terminal size (what a row shows depends on the width of the moment, not of the first render)
+            ("the same long rows at every size", lambda: [fs("abcdefghij"), fs("ABCDEFGHIJ", "red"), fs("0123456789", bg="blue")]),
         ]
         if tier == "thorough":
             out += [
@@ -216,9 +218,25 @@ def rule_semantic(src, rep, counts):
     for (h, w) in sizes:
         for hc in (True, False):
             jobs.append((h, w, "in place", None, None, hc))
+            jobs.append((h, w, "in place", "FSArray", None, hc))
 
     def one(job):
         h, w, i, j, rs, hc = job
+        if i == "in place" and j == "FSArray":
+            # the same with ONE FSArray edited by whole-row assignment a[i] = row
+            arr = pool.fsarray(["ab"[:w], "cd"[:w]][:max(1, h)], w)
+
+            def set_row(k, row):
+                r = it.call1("formatstringarray", "FSArray.__setitem__", arr, k, row)
+                if r[0] != "ok":
+                    raise AnalysisError("a[%d] = row gives %s" % (k, r))
+                return arr
+            steps = [("render", "an FSArray a", lambda: arr, (0, 0)), ("render", "the same FSArray after a[0] = bold 'xy'", lambda: set_row(0, pool.fs("xy"[:w], "bold")), (0, 0)),
+                     ("render", "the same FSArray after a[0] = 'pq'", lambda: set_row(0, pool.fs("pq"[:w])), (0, 0)), ("render", "the same FSArray, unchanged", lambda: arr, (0, 0))]
+            try:
+                return run_history(it, h, w, steps, hc)
+            except AnalysisError as e:
+                return ("error", str(e), "")
         if i == "in place":
             # the caller keeps ONE list and edits it between renders: the window must show what the list holds now
             shared = [pool.fs("ab"[:w]), pool.fs("cd"[:w], "red")][:h]
